@@ -45,12 +45,87 @@ pub fn exec(t: &[&str]) -> Option<String> {
                     if *d == "Monero" && format!("{}", a) != s { return Some("MISMATCH Display vs to_string_with_denomination".into()); } Some(hex(s.as_bytes())) }
                 _ => None }
         }
+        // formatting into a FAILING sink (error ignored), then formatting another amount normally on the same thread: the second result must
+        // not depend on the first call. `mode` = `c<k>`: the sink accepts k characters then returns Err; `b<k>`: bounded buffer of k bytes
+        // that refuses a chunk that does not fit. Result: hex(to_string_in) hex(to_string_with_denomination) hex(Display) of the SECOND amount.
+        ["c15_fmt_after_fail", ty, d, mode, a1, a2] => {
+            use std::fmt::Write as _;
+            let d = denom(d)?; let kind = *mode.as_bytes().first()?; let k: usize = mode.get(1..)?.parse().ok()?;
+            if kind != b'c' && kind != b'b' { return None; }
+            // the second amount is formatted IMMEDIATELY after the failed calls (no successful call in between that could flush stale state);
+            // which of its three forms comes first rotates with k; the prefix check of what reached the sink is done afterwards
+            macro_rules! seq { ($x:expr, $y:expr) => {{ let (x, y) = ($x, $y);
+                let mut s1 = Sink { buf: String::new(), kind, k }; let r1 = x.fmt_value_in(&mut s1, d); let mut s2 = Sink { buf: String::new(), kind, k }; let r2 = write!(s2, "{}", x);
+                let (mut f0, mut f1, mut f2) = (None, None, None);
+                for step in 0..3 { match (k + step) % 3 { 0 => f0 = Some(y.to_string_in(d)), 1 => f1 = Some(y.to_string_with_denomination(d)), _ => f2 = Some(format!("{}", y)) } }
+                let (full1, full2) = (x.to_string_in(d), format!("{}", x));
+                if !full1.starts_with(&s1.buf) || !full2.starts_with(&s2.buf) || (r1.is_ok() && s1.buf != full1) || (r2.is_ok() && s2.buf != full2) { return Some("MISMATCH what reached the failing sink is not a prefix of the formatted amount".into()); }
+                Some(format!("{} {} {}", hex(f0.unwrap().as_bytes()), hex(f1.unwrap().as_bytes()), hex(f2.unwrap().as_bytes()))) }} }
+            match *ty {
+                "u" => seq!(Amount::from_pico(a1.parse::<u64>().ok()?), Amount::from_pico(a2.parse::<u64>().ok()?)),
+                "s" => seq!(SignedAmount::from_pico(a1.parse::<i64>().ok()?), SignedAmount::from_pico(a2.parse::<i64>().ok()?)),
+                _ => None }
+        }
+        // a parse that fails (result ignored; also through the suffix entry point) followed by a parse of another string: the second result
+        // must be that of the second string alone
+        ["c15_parse_after_fail", ty, d, hbad, hgood] => {
+            let d = denom(d)?; let (bad, good) = (unhex(hbad), unhex(hgood));
+            let (bad, good) = match (std::str::from_utf8(&bad), std::str::from_utf8(&good)) { (Ok(a), Ok(b)) => (a, b), _ => return Some("bad-utf8".into()) };
+            match *ty {
+                "u" => { let _ = Amount::from_str_in(bad, d); let _ = Amount::from_str(bad); Some(show(Amount::from_str_in(good, d).map(|a| a.as_pico()))) }
+                "s" => { let _ = SignedAmount::from_str_in(bad, d); let _ = SignedAmount::from_str(bad); Some(show(SignedAmount::from_str_in(good, d).map(|a| a.as_pico()))) }
+                _ => None }
+        }
+        // `Display` of both amount types (the denomination is hard-wired to Monero in the library)
+        ["c15_display", ty, a] => match *ty {
+            "u" => Some(hex(format!("{}", Amount::from_pico(a.parse::<u64>().ok()?)).as_bytes())),
+            "s" => Some(hex(format!("{}", SignedAmount::from_pico(a.parse::<i64>().ok()?)).as_bytes())),
+            _ => None },
+        // `Denomination::from_str` alone: the name of the denomination, or `err`
+        ["c15_denom", h] => {
+            let b = unhex(h);
+            let s = match std::str::from_utf8(&b) { Ok(s) => s, Err(_) => return Some("bad-utf8".into()) };
+            Some(match Denomination::from_str(s) { Ok(d) => DENOMS.iter().find(|x| x.1 == d).map(|x| x.0.to_string()).unwrap_or_else(|| "MISMATCH a denomination outside the five modelled ones".into()), Err(_) => "err".into() })
+        }
         _ => None,
+    }
+}
+
+/// a `fmt::Write` that fails: `c` accepts `k` characters and then returns Err (the characters before are kept); `b` is a bounded buffer
+/// of `k` bytes that refuses any chunk that does not fit
+struct Sink { buf: String, kind: u8, k: usize }
+impl std::fmt::Write for Sink {
+    fn write_str(&mut self, s: &str) -> std::fmt::Result {
+        if self.kind == b'c' { for ch in s.chars() { if self.buf.chars().count() >= self.k { return Err(std::fmt::Error); } self.buf.push(ch); } Ok(()) }
+        else if self.buf.len() + s.len() > self.k { Err(std::fmt::Error) } else { self.buf.push_str(s); Ok(()) }
     }
 }
 
 /// the string behind a formatting result (empty if the implementation panicked, so that the direct checks fail instead of the run)
 fn text_of(h: &str) -> String { if h == "-" { String::new() } else { hex::decode(h).ok().and_then(|b| String::from_utf8(b).ok()).unwrap_or_default() } }
+
+/// Value-preserving rewrites of a formatted amount `s` (= `to_string_in(a, d)`, `dec` fraction digits): each must parse back to `want`
+/// (`Some(a)` when |a| <= 2^63-1, otherwise `None`), and one digit more than the denomination allows must be refused.
+fn metamorphic(o: &mut Out, s: &str, dec: usize, want: Option<i128>, id: &str, parse: &dyn Fn(&str) -> Result<Option<i128>, String>) {
+    if s.is_empty() { return; }
+    let (sign, body) = match s.strip_prefix('-') { Some(b) => ("-", b), None => ("", s) };
+    let mut vars: Vec<(String, &str, Option<i128>)> = vec![];
+    if s.len() + 3 <= 50 { vars.push((format!("{}000{}", sign, body), "three leading zeros", want)); }
+    if let Some((ip, fp)) = body.split_once('.') {
+        let t = fp.trim_end_matches('0');
+        vars.push((format!("{}{}.{}", sign, ip, t), "trailing fraction zeros stripped (point kept)", want));
+        if t.is_empty() { vars.push((format!("{}{}", sign, ip), "zero fraction and point dropped", want)); }
+        if ip == "0" { vars.push((format!("{}.{}", sign, fp), "no digit before the point", want)); }
+        if fp.len() == dec && s.len() < 50 { vars.push((format!("{}0", s), "one fraction digit more than the denomination has (a zero)", None)); vars.push((format!("{}5", s), "one fraction digit more than the denomination has", None)); }
+    } else {
+        vars.push((format!("{}.", s), "bare trailing point", want));
+        if dec == 0 { vars.push((format!("{}.0", s), "a fraction digit in a denomination without decimals", None)); }
+    }
+    for (v, what, w) in vars {
+        let got = parse(&v);
+        o.direct(got == Ok(w), &format!("rewrite of a formatted amount: {}", what), format!("{} via {:?}", id, v), format!("{:?}", got), format!("{:?}", w));
+    }
+}
 
 fn digit_string(rng: &mut Rng, n: usize, zero_bias: u64) -> String {
     (0..n).map(|_| if rng.chance(zero_bias, 10) { '0' } else { (b'0' + rng.below(10) as u8) as char }).collect()
@@ -130,6 +205,20 @@ fn literals(rng: &mut Rng, n_random: usize, o: &mut Out) -> Vec<(String, &'stati
         if rng.chance(2, 3) { s.push('.'); let nf = match rng.below(6) { 0 => 0, 1 => rng.below(4), 2 => 12, 3 => 13, 4 => *rng.pick(&[2u64, 3, 4, 5, 6, 7, 8, 9, 10]), _ => rng.below(16) } as usize; s.push_str(&digit_string(rng, nf, 3)); }
         v.push((s, "random"));
     }
+    // (G, added) values that are huge but WRAP to something small: N = 2^64 * q * 10^j + r with r < 2^63, written with 20..50 digits and the
+    // point at 0 / 3 / 12 digits from the right. An accumulation with wrapping arithmetic (also one that is guarded by a condition on the
+    // length of the string) returns r-like small values and accepts; the exact parser must refuse every one of them.
+    for i in 0..360usize {
+        let q: u128 = match i % 3 { 0 => 1 + rng.below(9) as u128, 1 => 1 + rng.below(1_000_000) as u128, _ => 1 + (rng.next() >> 28) as u128 };
+        let r: u64 = if i % 2 == 0 { rng.below(1000) } else { rng.next() >> 1 };
+        let head = ((1u128 << 64) * q).to_string();
+        let j = if i % 4 == 0 { 0 } else { 19 + rng.below(12) as usize };
+        let ds = if j == 0 { ((1u128 << 64) * q + r as u128).to_string() } else { format!("{}{:0width$}", head, r, width = j) };
+        if ds.len() > 50 { continue; }
+        let f = *rng.pick(&[0usize, 0, 3, 12]);
+        let body = if f == 0 || ds.len() + 1 > 50 { ds } else { with_point(&ds, f) };
+        v.push((if rng.chance(1, 5) && body.len() < 50 { format!("-{}", body) } else { body }, "wrapsmall"));
+    }
     let mut seen = std::collections::HashSet::new();
     v.retain(|(s, _)| seen.insert(s.clone()));   // each distinct string once (first class wins)
     o.notes.push(format!("{} distinct grammar-directed strings", v.len()));
@@ -189,12 +278,17 @@ pub fn run(o: &mut Out, tier: &str, seed: u64) {
     // formatting: boundary set and random values; round trips checked directly
     let mut us: Vec<u64> = vec![0, 1, 2, 9, 10, 11, 99, 100, 101, u64::MAX, u64::MAX - 1, i64::MAX as u64, i64::MAX as u64 + 1, i64::MAX as u64 - 1, i64::MAX as u64 + 2];
     let mut p: u64 = 1; for _ in 0..19 { p *= 10; us.extend_from_slice(&[p - 1, p, p + 1, p / 10 * 9, (p / 10).wrapping_mul(11)]); }
+    let n_boundary_us = us.len();                 // every value pushed so far is a stated boundary value; all of them are run on every denomination
     for _ in 0..n_fmt { us.push(match rng.below(3) { 0 => rng.u64_boundary(), 1 => { let w = rng.below(64); rng.next() >> w } _ => { let k = rng.below(20) as u32; (rng.below(1000) as u64).wrapping_mul(10u64.pow(k)).wrapping_add(rng.below(3)).wrapping_sub(1) } }); }
     let mut ss: Vec<i64> = vec![i64::MIN, i64::MIN + 1, i64::MIN + 2, i64::MAX, -1, -9, -10, -11, -999_999_999_999, -1_000_000_000_000, -1_000_000_000_001];
+    // (added) magnitudes strictly below one unit of each denomination, both signs: the integer part is "0" / "-0" and the sign must survive
+    // (-0.5 XMR, -0.000000000001 XMR, -0.5 millinero, ...)
+    for dec in [3u32, 6, 9, 12] { let unit = 10i64.pow(dec); for v in [unit / 2, unit / 10, unit - 1, unit / 4 + 1, 1, 421 % unit] { ss.push(-v); ss.push(v); } }
+    let n_fixed_ss = ss.len();
     for &u in &us { ss.push(u as i64); ss.push((u as i64).wrapping_neg()); }
     for (i, &a) in us.iter().enumerate() {
         for (dn, d, dec) in DENOMS.iter() {
-            if i >= 120 && !rng.chance(2, 5) { continue; }
+            if i >= n_boundary_us && !rng.chance(2, 5) { continue; }
             let h = o.op(format!("c15_fmt u {} {}", dn, a), true); let hd = o.op(format!("c15_fmt_denom u {} {}", dn, a), true);
             o.stat(&format!("fmt.u.{}", dn));
             let (s, sd) = (text_of(&h), text_of(&hd));
@@ -206,11 +300,18 @@ pub fn run(o: &mut Out, tier: &str, seed: u64) {
             // shape: exactly `dec` fraction digits
             let frac = s.split('.').nth(1).map(|f| f.len()).unwrap_or(0);
             o.direct(frac == *dec && (s.contains('.') == (*dec > 0)), "exactly `decimals` fraction digits", format!("{} {}", dn, a), s.clone(), format!("{} fraction digits", dec));
+            let dd = *d; metamorphic(o, &s, *dec, want.map(|x| x as i128), &format!("u {} {}", dn, a), &move |v: &str| { let v = v.to_string(); guarded(move || Amount::from_str_in(&v, dd).ok().map(|x| x.as_pico() as i128)) });
+        }
+        if i < n_boundary_us || rng.chance(1, 4) {
+            let h = o.op(format!("c15_display u {}", a), true); let sd = text_of(&h);
+            let got = guarded(move || Amount::from_str(&sd).ok().map(|x| x.as_pico()));
+            let want = if a <= i64::MAX as u64 { Some(a) } else { None };
+            o.direct(got == Ok(want), "parse(Display a) == a (unsigned)", a.to_string(), format!("{:?}", got), format!("{:?}", want));
         }
     }
     for (i, &a) in ss.iter().enumerate() {
         for (dn, d, dec) in DENOMS.iter() {
-            if i >= 120 && !rng.chance(1, 5) { continue; }
+            if i >= n_fixed_ss + 2 * n_boundary_us && !rng.chance(1, 5) { continue; }
             let h = o.op(format!("c15_fmt s {} {}", dn, a), true); let hd = o.op(format!("c15_fmt_denom s {} {}", dn, a), true);
             o.stat(&format!("fmt.s.{}", dn));
             let (s, sd) = (text_of(&h), text_of(&hd));
@@ -221,7 +322,93 @@ pub fn run(o: &mut Out, tier: &str, seed: u64) {
             o.direct(got == Ok(want), "parse(format_with_suffix a) == a (signed)", format!("{} {}", dn, a), format!("{:?} via {:?}", got, sd), format!("{:?}", want));
             let frac = s.split('.').nth(1).map(|f| f.len()).unwrap_or(0);
             o.direct(frac == *dec && (s.contains('.') == (*dec > 0)), "exactly `decimals` fraction digits", format!("{} {}", dn, a), s.clone(), format!("{} fraction digits", dec));
+            let dd = *d; metamorphic(o, &s, *dec, want.map(|x| x as i128), &format!("s {} {}", dn, a), &move |v: &str| { let v = v.to_string(); guarded(move || SignedAmount::from_str_in(&v, dd).ok().map(|x| x.as_pico() as i128)) });
+        }
+        if i < n_fixed_ss + 2 * n_boundary_us || rng.chance(1, 4) {
+            let h = o.op(format!("c15_display s {}", a), true); let sd = text_of(&h);
+            let got = guarded(move || SignedAmount::from_str(&sd).ok().map(|x| x.as_pico()));
+            let want = if a != i64::MIN { Some(a) } else { None };
+            o.direct(got == Ok(want), "parse(Display a) == a (signed)", a.to_string(), format!("{:?}", got), format!("{:?}", want));
         }
     }
+    // ---- added (audit C15 §4b/§4d, §5.2, §5.4) ---------------------------------------------------------------------------------
+    // deterministic suffix family: every special / cap / magnitude / prefix literal x every accepted spelling x {u, s} through
+    // `from_str_with_denomination` = `FromStr`, so that the 50-byte cap (on the literal, not on the whole string) and the 2^63 / 2^64
+    // boundaries are exercised through the suffix entry points on every run
+    let mut n_suffix = 0usize;
+    for (lit, class) in lits.iter() {
+        if !["special", "cap", "magnitude", "prefix"].contains(class) { continue; }
+        for name in NAMES.iter() { for ty in ["u", "s"] {
+            let r = o.op(format!("c15_parse_denom {} {}", ty, hex(format!("{} {}", lit, name).as_bytes())), true);
+            o.stat(&format!("denom.systematic.{}.{}", class, if r.starts_with("ok") { "ok" } else { "err" })); n_suffix += 1;
+        } }
+    }
+    // near-names: every accepted spelling with one edit, alone (`Denomination::from_str`) and behind the literal "1" for both types,
+    // so that the outcome depends on the name only
+    let mut near: Vec<String> = Vec::new();
+    for name in NAMES.iter() {
+        let cs: Vec<char> = name.chars().collect();
+        near.push(name.to_string());
+        for i in 0..cs.len() {
+            let flip: String = cs.iter().enumerate().map(|(j, &c)| if j != i { c.to_string() } else if c.is_uppercase() { c.to_lowercase().to_string() } else { c.to_uppercase().to_string() }).collect(); near.push(flip);
+            near.push(cs.iter().enumerate().filter(|(j, _)| *j != i).map(|(_, c)| *c).collect());                                 // delete
+            near.push(cs.iter().enumerate().flat_map(|(j, &c)| if j == i { vec![c, c] } else { vec![c] }).collect());            // duplicate
+            if i >= 3 { near.push(cs[..i].iter().collect()); }                                                                     // proper prefix of length >= 3
+        }
+        for suf in ["s", " ", "\n", "\t", "\0", "."] { near.push(format!("{}{}", name, suf)); }
+        near.push(format!(" {}", name)); near.push(name.to_uppercase()); near.push(name.to_lowercase());
+    }
+    for x in ["picoXMR", "nanoXMR", "microXMR", "milliXMR", "uXMR", "kXMR", "nano", "milli", "micro", "pico", "xmrs", "XMRs", "moneros", "Monero", "Millinero", "Micronero", "Nanonero", "Piconero", "μXMR", "µxmr", "mcxmr", ""] { near.push(x.to_string()); }
+    let mut seen = std::collections::HashSet::new(); near.retain(|x| seen.insert(x.clone()));
+    for n in &near {
+        let r = o.op(format!("c15_denom {}", hex(n.as_bytes())), true); o.stat(&format!("nearname.{}", if r == "err" { "err" } else { "ok" }));
+        if !n.contains(' ') { for ty in ["u", "s"] {
+            let r2 = o.op(format!("c15_parse_denom {} {}", ty, hex(format!("1 {}", n).as_bytes())), true);
+            o.direct((r == "err") == (r2 == "err"), "`1 <name>` is accepted iff <name> is a denomination", format!("{:?}", n), format!("{} / {}", r, r2), "both ok or both err".into());
+        } }
+    }
+    // ---- added on request: stateful sequences, signs --------------------------------------------------------------------------------
+    // (S1) format into a failing sink, ignore the error, then format another amount normally on the same thread
+    let modes = ["c0", "c1", "c5", "c14", "b0", "b3", "b12", "b25"];
+    let firsts_u: [u64; 6] = [421_000_000_000_000, u64::MAX, 1, 123_456_789_012_345_678, 0, 9_999_999_999_999];
+    let seconds_u: [u64; 8] = [0, 1, 421, 1_000_000_000_000, 500_000_000_000, 42, i64::MAX as u64, 10];
+    let mut n_seq = 0usize;
+    for (mi, mode) in modes.iter().enumerate() { for (fi, &a1) in firsts_u.iter().enumerate() { for (si, &a2) in seconds_u.iter().enumerate() {
+        for (di, (dn, _, _)) in DENOMS.iter().enumerate() {
+            if (mi + fi + si + di) % 2 == 1 { continue; }                              // half of the product, every mode / value / denomination met
+            o.op(format!("c15_fmt_after_fail u {} {} {} {}", dn, mode, a1, a2), true);
+            let (s1, s2) = (if fi % 2 == 0 { -(a1.min(i64::MAX as u64) as i64) } else { a1.min(i64::MAX as u64) as i64 }, if si % 2 == 1 { -(a2.min(i64::MAX as u64) as i64) } else { a2.min(i64::MAX as u64) as i64 });
+            o.op(format!("c15_fmt_after_fail s {} {} {} {}", dn, mode, s1, s2), true); n_seq += 2;
+        }
+    } } }
+    for _ in 0..(if thorough { 6000 } else { 600 }) {
+        let (dn, _, _) = rng.pick(&DENOMS); let mode = format!("{}{}", if rng.chance(1, 2) { "c" } else { "b" }, rng.below(30));
+        let (a1, a2) = (rng.next() >> rng.below(64), rng.next() >> rng.below(64));
+        if rng.chance(1, 2) { o.op(format!("c15_fmt_after_fail u {} {} {} {}", dn, mode, a1, a2), true); } else { o.op(format!("c15_fmt_after_fail s {} {} {} {}", dn, mode, (a1 as i64).wrapping_neg(), a2 as i64), true); }
+        n_seq += 1;
+    }
+    // (S2) a parse that fails midway, then a successful (or any other) parse
+    let bads = ["123x", "99999999999999999999999", "0.0000000000001", "1.2.3", "184467440737095516150", "-", "12345678901234567890123456789012345678901234567890123", "1.5 xmr", "7 µXMR", "42 bogus", "9223372036854775808", "١٢٣", "4.2.", "421000000000000.000000000000x"];
+    let goods: Vec<&String> = lits.iter().filter(|(l, c)| grammatical(l) && *c != "grid").map(|(l, _)| l).collect();
+    for i in 0..(if thorough { 20_000 } else { 2_000 }) {
+        let bad = if i % 4 == 3 { rng.pick(&junks).0.clone() } else { bads[i % bads.len()].to_string() };
+        let good = if i % 5 == 0 { *rng.pick(&["1", "0.5", "421", "0.000000000001", "-0.5", "1.000000000000"]) } else { rng.pick(&goods).as_str() };
+        let (dn, _, _) = rng.pick(&DENOMS); let ty = if i % 2 == 0 { "u" } else { "s" };
+        let r = o.op(format!("c15_parse_after_fail {} {} {} {}", ty, dn, hex(bad.as_bytes()), hex(good.as_bytes())), true);
+        o.stat(&format!("parse_after_fail.{}", if r.starts_with("ok") { "ok" } else { "err" })); n_seq += 1;
+    }
+    // (S3) a leading '+' (also after / before '-') is not part of the grammar: refused by `from_str_in` and by `FromStr`
+    let mut n_plus = 0usize;
+    let plus_base: Vec<String> = ["1", "0", "0.5", ".5", "5.", "421", "1.000000000000", "0.000000000001", "9223372036854775807", "12345678.123456789012", "00", "", "."].iter().map(|x| x.to_string())
+        .chain((0..12).map(|_| { let l = rng.pick(&goods); l.trim_start_matches('-').to_string() })).collect();
+    for b in &plus_base { for pre in ["+", "-+", "+-", "++", " +", "+ "] {
+        let l = format!("{}{}", pre, b); if l.len() > 50 { continue; }
+        for (dn, _, _) in DENOMS.iter() { for ty in ["u", "s"] { let r = o.op(format!("c15_parse {} {} {}", ty, dn, hex(l.as_bytes())), true); o.stat(&format!("parse.plus.{}", if r.starts_with("ok") { "ok" } else { "err" })); n_plus += 1; } }
+        for name in ["xmr", "XMR", "piconero", "mXMR"] { for ty in ["u", "s"] {
+            let r = o.op(format!("c15_parse_denom {} {}", ty, hex(format!("{} {}", l, name).as_bytes())), true);
+            o.direct(r == "err", "a literal with a leading '+' is refused by FromStr", format!("{:?}", format!("{} {}", l, name)), r.clone(), "err".into()); n_plus += 1; } }
+    } }
+    o.notes.push(format!("added on request: {} stateful sequences (formatting into a failing sink then formatting normally; a failing parse then another parse), {} '+'-signed strings through from_str_in and FromStr, signed values strictly between -1 unit and 0 of every denomination in the complete boundary set (formatting, suffix, Display, round trips)", n_seq, n_plus));
+    o.notes.push(format!("added: {} systematic `<literal> <spelling>` suffix cases, {} near-name strings (alone and behind the literal 1), Display of every boundary value, value-preserving rewrites of every formatted string checked directly; signed and unsigned boundary sets are now run completely", n_suffix, near.len()));
     o.notes.push(format!("{} literals + {} junk strings x 5 denominations x {{u,s}}; {} suffix strings x {{u,s}}; formatting on {} unsigned / {} signed values (boundary set complete, random part sampled per denomination); non-trivial = grammatical literal or a single mutation of one (parse), every suffix / formatting case", lits.len(), junks.len(), n_denom, us.len(), ss.len()));
 }
